@@ -10,7 +10,7 @@ Translated (anything else raises TranslateError):
         E := G(self.domain)(point) | self(point) | point | number | -E | E + E | E - E | E * E | E / E | E ** int
   * gradient_factory(name): same chain shape, each branch
         def gradient(self): return F
-    and a final `else: gradient = Functional.gradient`         -> ufunc_grad : ufn -> option uex
+    and a final `else: gradient = Functional.gradient[.fget]`  -> ufunc_grad : ufn -> option uex
         F := G(self.domain) | self | -F | number + F | F1 * F2 (Functional.__mul__(Operator) = composition F1 o F2)
            | FunctionalQuotient(ConstantFunctional(self.domain, c), F) | ScalingFunctional(self.domain, c)
     (F is read as the function point |-> F(point), i.e. the gradient VALUE at `point`.)
@@ -125,7 +125,7 @@ def gexpr(node, me):
     fail(node, 'functional expression outside grammar')
 
 
-def chain(fdef, target, default_text):
+def chain(fdef, target, default_texts):
     """The if/elif chain of a factory: returns [(name, FunctionDef)]."""
     body = [s for s in fdef.body if not (isinstance(s, ast.Expr) and isinstance(s.value, ast.Constant))]
     if len(body) != 2 or not isinstance(body[0], ast.If) or not isinstance(body[1], ast.Return):
@@ -146,8 +146,8 @@ def chain(fdef, target, default_text):
         if len(node.orelse) == 1 and isinstance(node.orelse[0], ast.If):
             node = node.orelse[0]
             continue
-        if len(node.orelse) != 1 or ast.unparse(node.orelse[0]) != default_text:
-            fail(node, 'final else must be `%s`' % default_text)
+        if len(node.orelse) != 1 or ast.unparse(node.orelse[0]) not in default_texts:
+            fail(node, 'final else must be one of %r' % (default_texts,))
         return out
 
 
@@ -182,7 +182,7 @@ def translate():
             fail(funcs['ufunc_class_factory'], 'class factory no longer contains %r' % needle)
 
     dtab = []
-    for name, fd in chain(funcs['derivative_factory'], 'derivative', 'derivative = Operator.derivative'):
+    for name, fd in chain(funcs['derivative_factory'], 'derivative', ('derivative = Operator.derivative',)):
         if [a.arg for a in fd.args.args] != ['self', 'point']:
             fail(fd, 'derivative signature')
         b = fbody(fd)
@@ -196,7 +196,8 @@ def translate():
             fail(r, 'derivative must return MultiplyOperator(E)')
         dtab.append((ufn(name, fd), dexpr(r.args[0], name)))
     gtab = []
-    for name, fd in chain(funcs['gradient_factory'], 'gradient', 'gradient = Functional.gradient'):
+    for name, fd in chain(funcs['gradient_factory'], 'gradient',
+                          ('gradient = Functional.gradient', 'gradient = Functional.gradient.fget')):
         b = fbody(fd)
         if len(b) != 1 or not isinstance(b[0], ast.Return):
             fail(fd, 'gradient body outside grammar')
